@@ -202,5 +202,7 @@ EncNumVerdict(f, code, req) ==
   IF req.k = "na" THEN (IF Sentinel(f, code) THEN "ok" ELSE "encode.not-available-lost")
   ELSE IF Sentinel(f, code) THEN "encode.value-became-not-available"
   ELSE IF Ticks(f, code) \in AllowedTicks(SM(req.neg, req.mag), req.cls) THEN "ok"
+  \* beyond 2^50 ticks a double cannot name a single step: agreement to 2^-48 relative
+  ELSE IF Len(Trim(req.mag)) > 50 /\ SMNear(Ticks(f, code), SM(req.neg, req.mag), 48) THEN "ok"
   ELSE "encode.wrong-code"
 =============================================================================
